@@ -3,5 +3,5 @@ CONSTANTS
   Tiny = FALSE
   WithOrders = FALSE
   SampleMod = 40
-INVARIANTS MergeMatchesUnion ValidAreAccepted RowsIndependent ExportInv
+INVARIANTS MergeMatchesUnion ValidAreAccepted RowsIndependent MixedAccepted MixedRowsIndependent ExportInv
 CHECK_DEADLOCK FALSE
